@@ -13,6 +13,7 @@ open EasyMl.Fallible
 /-- the size a composition reports: the request clipped to the source for ranges -/
 def MExpr.size : MExpr → Nat × Nat
   | .leaf rows columns => (rows, columns)
+  | .leafCM rows columns => (rows, columns)
   | .range e rows columns =>
     (min (rows.start + rows.length) e.size.1 - rows.start,
      min (columns.start + columns.length) e.size.2 - columns.start)
@@ -23,6 +24,7 @@ def MExpr.size : MExpr → Nat × Nat
 /-- the designated cell of index `(i, j)`: present exactly inside the size -/
 def MExpr.cell : MExpr → Nat → Nat → Option Nat
   | .leaf rows columns, i, j => if i < rows ∧ j < columns then some (i * columns + j) else none
+  | .leafCM rows columns, i, j => if i < rows ∧ j < columns then some (j * rows + i) else none
   | .range e rows columns, i, j =>
     if i < (MExpr.range e rows columns).size.1 ∧ j < (MExpr.range e rows columns).size.2 then
       e.cell (i + rows.start) (j + columns.start)
@@ -37,6 +39,7 @@ def MExpr.cell : MExpr → Nat → Nat → Option Nat
 /-- the leaves are genuine matrices (at least 1×1, at most `usize::MAX` elements) -/
 def MExpr.LeavesOk : MExpr → Prop
   | .leaf rows columns => 1 ≤ rows ∧ 1 ≤ columns ∧ rows * columns ≤ usizeMax
+  | .leafCM rows columns => 1 ≤ rows ∧ 1 ≤ columns ∧ rows * columns ≤ usizeMax
   | .range e _ _ => e.LeavesOk
   | .reverse e _ _ => e.LeavesOk
   | .map e => e.LeavesOk
@@ -46,10 +49,25 @@ def MExpr.LeavesOk : MExpr → Prop
     `TensorRefMatrix::from` answers `Err`) -/
 def MExpr.Buildable : MExpr → Bool
   | .leaf _ _ => true
+  | .leafCM _ _ => true
   | .range e _ _ => e.Buildable
   | .reverse e _ _ => e.Buildable
   | .map e => e.Buildable
   | .viaTensor e => e.Buildable && decide (1 ≤ e.size.1) && decide (1 ≤ e.size.2)
+
+/-- the layout a composition reports, declaratively: that of its source for ranges, maps and the
+    tensor round trip, `Other` after a reversal -/
+def MExpr.layoutSpec : MExpr → MLayout
+  | .leaf _ _ => .rowMajor
+  | .leafCM _ _ => .columnMajor
+  | .range e _ _ => e.layoutSpec
+  | .reverse _ _ _ => .other
+  | .map e => e.layoutSpec
+  | .viaTensor e => e.layoutSpec
+
+/-- two sources are equal when they have the same size and equal elements at every index -/
+def gridEqSpec (l r : Grid) : Prop :=
+  l.rows = r.rows ∧ l.columns = r.columns ∧ ∀ i j, i < l.rows → j < l.columns → l.elem i j = r.elem i j
 
 /-! ### partitions -/
 
